@@ -1,1 +1,139 @@
-//! oracle for idea — to be written from the specification
+//! IDEA (Lai, Massey: "A Proposal for a New Block Encryption Standard", 1990/91; Lai's thesis), written from the
+//! algorithm description: three group operations on 16-bit sub-blocks (XOR, addition mod 2^16, multiplication mod
+//! 2^16+1 with the all-zero sub-block standing for 2^16), 8 rounds + output transformation, 52 sub-keys taken from
+//! the 128-bit key under repeated 25-bit left rotations, decryption sub-keys from inverses.
+//!
+//! Leaves exposed as generic parameters: `mul` (crypt_with), `mul_inv` / `add_inv` (invert_with).
+
+/// Multiplication modulo 2^16 + 1, 0 represents 2^16.
+pub fn mul(a: u16, b: u16) -> u16 {
+    let x: u64 = if a == 0 { 65536 } else { a as u64 };
+    let y: u64 = if b == 0 { 65536 } else { b as u64 };
+    let p = (x * y) % 65537;
+    // p is never 0 (65537 is prime and x, y are non-zero residues); 65536 is represented by 0
+    (p & 0xffff) as u16
+}
+/// Addition modulo 2^16.
+pub fn add(a: u16, b: u16) -> u16 {
+    ((a as u32 + b as u32) % 65536) as u16
+}
+/// Additive inverse modulo 2^16.
+pub fn add_inv(a: u16) -> u16 {
+    ((65536 - a as u32) % 65536) as u16
+}
+/// Multiplicative inverse modulo the prime 2^16 + 1 by Fermat: a^(p-2).
+pub fn mul_inv(a: u16) -> u16 {
+    // exponent 65535 = 2^16 - 1: sixteen one-bits
+    let mut r: u16 = 1;
+    let mut i = 0;
+    while i < 16 {
+        r = mul(r, r);
+        r = mul(r, a);
+        i += 1;
+    }
+    r
+}
+
+/// Encryption sub-keys Z1..Z52: the key is split into eight 16-bit sub-blocks (big-endian), these are the first
+/// eight sub-keys; the key is then rotated left by 25 bits and split again, and so on.
+pub fn expand_key(key: &[u8; 16]) -> [u16; 52] {
+    let mut k: u128 = 0;
+    let mut i = 0;
+    while i < 16 {
+        k = (k << 8) | key[i] as u128;
+        i += 1;
+    }
+    let mut z = [0u16; 52];
+    i = 0;
+    while i < 52 {
+        let j = i % 8;
+        if i > 0 && j == 0 {
+            k = k.rotate_left(25);
+        }
+        z[i] = (k >> (112 - 16 * j)) as u16;
+        i += 1;
+    }
+    z
+}
+
+/// Decryption sub-keys.  With Z(r)1..6 the sub-keys of encryption round r (r = 1..8) and Z(9)1..4 those of the
+/// output transformation, decryption round r uses
+///   (Z(10-r)1^-1, -Z(10-r)3, -Z(10-r)2, Z(10-r)4^-1, Z(9-r)5, Z(9-r)6)   for r = 2..8
+///   (Z(10-r)1^-1, -Z(10-r)2, -Z(10-r)3, Z(10-r)4^-1, Z(9-r)5, Z(9-r)6)   for r = 1
+/// and the output transformation (Z(1)1^-1, -Z(1)2, -Z(1)3, Z(1)4^-1).
+pub fn invert_with<MI: Fn(u16) -> u16, AI: Fn(u16) -> u16>(z: &[u16; 52], mi: MI, ai: AI) -> [u16; 52] {
+    let mut d = [0u16; 52];
+    let mut r = 1;
+    while r <= 9 {
+        let s = 6 * (10 - r - 1); // first sub-key of encryption round 10-r
+        let o = 6 * (r - 1);
+        d[o] = mi(z[s]);
+        if r == 1 || r == 9 {
+            d[o + 1] = ai(z[s + 1]);
+            d[o + 2] = ai(z[s + 2]);
+        } else {
+            d[o + 1] = ai(z[s + 2]);
+            d[o + 2] = ai(z[s + 1]);
+        }
+        d[o + 3] = mi(z[s + 3]);
+        if r <= 8 {
+            let t = 6 * (9 - r - 1);
+            d[o + 4] = z[t + 4];
+            d[o + 5] = z[t + 5];
+        }
+        r += 1;
+    }
+    d
+}
+pub fn invert(z: &[u16; 52]) -> [u16; 52] {
+    invert_with(z, mul_inv, add_inv)
+}
+
+/// The data path: 8 rounds, the two middle sub-blocks are exchanged after every round except the last, then the
+/// output transformation.
+pub fn crypt_with<M: Fn(u16, u16) -> u16>(k: &[u16; 52], block: &[u8; 8], m: M) -> [u8; 8] {
+    let mut x = [0u16; 4];
+    let mut i = 0;
+    while i < 4 {
+        x[i] = ((block[2 * i] as u16) << 8) | block[2 * i + 1] as u16;
+        i += 1;
+    }
+    let mut r = 0;
+    while r < 8 {
+        let z = 6 * r;
+        let s1 = m(x[0], k[z]);
+        let s2 = add(x[1], k[z + 1]);
+        let s3 = add(x[2], k[z + 2]);
+        let s4 = m(x[3], k[z + 3]);
+        let s5 = s1 ^ s3;
+        let s6 = s2 ^ s4;
+        let s7 = m(s5, k[z + 4]);
+        let s8 = add(s6, s7);
+        let s9 = m(s8, k[z + 5]);
+        let s10 = add(s7, s9);
+        let o = [s1 ^ s9, s2 ^ s10, s3 ^ s9, s4 ^ s10];
+        if r < 7 {
+            x = [o[0], o[2], o[1], o[3]];
+        } else {
+            x = o;
+        }
+        r += 1;
+    }
+    // output transformation on the (un-exchanged) lines: Y1 = W1 (.) Z49, Y2 = W2 [+] Z50, Y3 = W3 [+] Z51, Y4 = W4 (.) Z52
+    let y = [m(x[0], k[48]), add(x[1], k[49]), add(x[2], k[50]), m(x[3], k[51])];
+    let mut out = [0u8; 8];
+    i = 0;
+    while i < 4 {
+        out[2 * i] = (y[i] >> 8) as u8;
+        out[2 * i + 1] = y[i] as u8;
+        i += 1;
+    }
+    out
+}
+
+pub fn encrypt(key: &[u8; 16], block: &[u8; 8]) -> [u8; 8] {
+    crypt_with(&expand_key(key), block, mul)
+}
+pub fn decrypt(key: &[u8; 16], block: &[u8; 8]) -> [u8; 8] {
+    crypt_with(&invert(&expand_key(key)), block, mul)
+}
